@@ -405,6 +405,44 @@ func runReqCrossDeadline(c *Ctx, sendMs, recvMs int, busyPeer bool) {
 	e.Finish()
 }
 
+// directed (C03): a request that is waiting for RE-transmission (already registered under its id, queued because no
+// pipe is ready: its connection was lost, or the retry timer fired while every pipe was busy) is abandoned by a new
+// Send on its context; a late reply to the abandoned request must not be delivered as the answer to the new one
+func runReqAbandonQueuedResend(c *Ctx, viaTimer bool) {
+	e := NewExec(c, "m.req", req.NewProtocol(), "req")
+	e.timed, e.canonIDs = true, true
+	e.AddPipe(901)
+	retry := time.Minute
+	if viaTimer {
+		retry = 50 * time.Millisecond
+	}
+	e.SetOpt(0, mangos.OptionRetryTime, fmt.Sprint(int(retry/time.Millisecond)), retry)
+	e.Send(0, nil, []byte{0x71, 0, 1})
+	if !e.idKnown {
+		e.Finish()
+		return
+	}
+	if viaTimer {
+		e.Hold(901, true) // the retransmission itself parks inside the pipe: the pipe stays busy
+		e.Sleep(80)       // retry timer fires: request 1 is handed to 901 again and parks there
+		e.Sleep(80)       // fires again: no ready pipe, request 1 waits in the send queue
+	} else {
+		e.RmPipe(901) // request 1 is queued for re-sending, no pipe
+	}
+	e.Send(0, nil, []byte{0x71, 0, 2}) // abandons request 1
+	e.AddPipe(902)
+	late := append(be32(0x80000001), 'o', 'l', 'd')
+	e.InjectCanon(902, late)
+	id := e.Recv(0)
+	for _, ev := range splitEvents(lastObs(e)) {
+		if ev.kind == "ret" && ev.call == id && ev.msg != nil && len(ev.hdr) == 4 && binary.BigEndian.Uint32(ev.hdr) != 0x80000002 {
+			c.Violate(fmt.Sprintf("REQ: Recv returned the reply to request %#x (body %q) although the context's current request is 0x80000002: the abandoned request was still registered while it waited for re-transmission", binary.BigEndian.Uint32(ev.hdr), ev.msg), e.Replay())
+		}
+	}
+	e.InjectCanon(902, append(be32(0x80000002), 'n', 'e', 'w'))
+	e.Finish()
+}
+
 func runC03(c *Ctx) {
 	c.Rep.Rule = "random histories on a real REQ protocol instance whose REP peers are played by the harness at message level: Send/Recv/Close on 1-3 contexts, replies carrying the current / a stale, cancelled, answered or other context's / a never-issued id, ids without the request bit, short bodies, duplicates, on any of 1-3 pipes; " +
 		"ids canonicalised to 0x80000000|k; every operation is checked against the Lean machine and every delivered reply against the context's current request; class = (operation, shape of outcome)"
@@ -421,6 +459,12 @@ func runC03(c *Ctx) {
 	}
 	runReqCrossDeadline(c, 150, 40, false)
 	runReqCrossDeadline(c, 0, 40, true)
+	runReqAbandonQueuedResend(c, false)
+	runReqAbandonQueuedResend(c, true)
+	// faults as in C04 (lost connections, slow and failing sends, short retry time) with replies of every kind
+	for i := 0; i < n/4+2; i++ {
+		runReqScenario(c, reqScenarioCfg{nops: 40, retryMs: 70, faults: true})
+	}
 }
 
 func runC04(c *Ctx) {
